@@ -100,6 +100,10 @@ def run_stale_backup(case, ctx):
             want.update(src_doc) if ds is not None else None
             if ds is not None and after != want:
                 mms.append(Mismatch("doc_update_result", f"sync with a leftover backup returned; document {after!r}, expected {want!r}"))
+            # whatever the strategy: the sync returned, so keys that exist only in the destination are unchanged (C13, P3)
+            lost = {k: v for k, v in dst_doc.items() if k not in src_doc and after.get(k, "<missing>") != v}
+            if lost:
+                mms.append(Mismatch("p3_doc_key", f"{level} sync with a leftover backup ({stale!r}) returned; destination-only keys {lost!r} became {({k: after.get(k, '<missing>') for k in lost})!r}"))
     finally:
         shutil.rmtree(base, ignore_errors=True)
     return {"mismatches": mms, "classes": ["stale_backup_leftover"], "nontrivial": True}
